@@ -4,3 +4,4 @@ import Scfg.Props.C03
 import Scfg.Props.C04
 import Scfg.Props.C05
 import Scfg.Props.C06
+import Scfg.Props.C14
